@@ -1256,6 +1256,9 @@ class Context:
             MemoryLimitError: If memory limit is exceeded
             TimeLimitError: If time limit is exceeded
         """
+        # The time limit runs from the call: parsing and compiling count too
+        started = time.monotonic()
+
         # Parse the code
         parser = Parser(code)
         ast = parser.parse()
@@ -1266,6 +1269,8 @@ class Context:
 
         # Execute
         vm = VM(memory_limit=self.memory_limit, time_limit=self.time_limit)
+
+        vm.start_time = started
 
         # Share globals with VM (don't copy - allows nested eval to modify globals)
         vm.globals = self._globals
